@@ -208,6 +208,13 @@ func ZZC19Verbs(n int) {
 	rt2 := a.Resource("/tr2")
 	rt2.Handle(h(52), nil, "TRACE", "POST")
 	rt2.Remove()
+	// ... and below a prefix that is cleaned (the method counters behind "OPTIONS *" must be released)
+	pt := a.Prefix("/pt")
+	pt.Handle("/t", h(53), nil, "TRACE")
+	pt.Handle("/u", h(54), nil, "TRACE", "CONNECT")
+	pt.Clean()
+	b.Handle("/pt/t", h(53), nil, "TRACE").Handle("/pt/u", h(54), nil, "TRACE", "CONNECT").Remove("/pt/t")
+	b.Remove("/pt/u")
 	b.Handle("/p/al1", h(41), zzMWs("Ba", "P"), "GET").Handle("/p/al2", h(42), zzMWs("Ba", "Bb", "P"), "GET")
 	b.Handle("/p/al3", h(43), zzMWs("Ba", "S3", "P"), "GET").Handle("/p/al3", h(44), zzMWs("Ba", "Bb", "S3", "P"), "POST")
 	b.Handle("/p/al4/x", h(45), zzMWs("Ba", "P"), "GET").Handle("/p/al5/x", h(46), zzMWs("Ba", "Bb", "P"), "GET")
@@ -219,11 +226,11 @@ func ZZC19Verbs(n int) {
 
 	ra, rb := a.Routes(), b.Routes()
 	zzv.Assert(len(ra) == len(rb), "verbs:routes-differ")
-	for _, pat := range []string{"/g", "/any", "/p/x/{v}", "/p/pany", "/p/ph", "/p/r/{id:digit}", "/q"} {
+	for _, pat := range []string{"/g", "/any", "/p/x/{v}", "/p/pany", "/p/ph", "/p/r/{id:digit}", "/q", "*"} {
 		zzv.Assert(zzJoin(ra[pat]) == zzJoin(rb[pat]) && len(ra[pat]) > 0, "verbs:method-set-differs-from-explicit-Handle")
 	}
 	val := zzv.Bytes("v", n)
-	for _, path := range []string{"/g", "/any", "/p/x/" + val, "/p/pany", "/p/ph", "/p/r/" + val, "/q", "/p/al1", "/p/al2", "/p/al3", "/p/al4/x", "/p/al5/x", "/p/al6", "/p/al7", "/tr", "/tr2"} {
+	for _, path := range []string{"/g", "/any", "/p/x/" + val, "/p/pany", "/p/ph", "/p/r/" + val, "/q", "/p/al1", "/p/al2", "/p/al3", "/p/al4/x", "/p/al5/x", "/p/al6", "/p/al7", "/tr", "/tr2", "/pt/t", "*"} {
 		for _, m := range []string{"GET", "POST", "DELETE", "PUT", "PATCH", "CONNECT", "HEAD", "OPTIONS", "TRACE"} {
 			oa, wa := zzServe(a, zzReq(m, path))
 			ob, wb := zzServe(b, zzReq(m, path))
